@@ -287,6 +287,17 @@ def shared_state(ctx, kind, u1, u2, rng, case):
             ctx.violation('C05:conversion-depends-on-other-objects', {'kind': kind, 'object': [x, u1], 'to': u2, 'first': first, 'after_another_object_converted': again,
                                                                       'other_object': [y, u4, u5, other.value], 'reference': exp}, case)
             return
+        # (3) a copy (copy.copy / copy.deepcopy) is a quantity of its own: converting the original in place afterwards does not reach it
+        import copy as _copy
+        o_ = K(x, u1)
+        cp = _copy.deepcopy(o_) if len(u1) % 2 else _copy.copy(o_)
+        o_.to(u3, inplace=True)
+        r3 = cp.to(u2)
+        ctx.count('shared_state_conversions')
+        if type(cp) is not K or cp.unit != u1 or cp.value != x or r3.unit != u2 or SI.ulps_apart(float(r3.value), exp) > 8 or not (cp == K(x, u1)):
+            ctx.violation('C05:copied-quantity-not-independent', {'kind': kind, 'value': x, 'unit': u1, 'original_converted_in_place_to': u3, 'copy': [cp.value, cp.unit],
+                                                                  'copy_converted': [r3.value, r3.unit], 'reference': exp}, case)
+            return
         # comparisons repeated on the same two objects
         b = K(SI.convert(kind, x * 1.5, u1, u2), u2)
         outs = [(a < b, b > a, a == b) for _ in range(3)]
